@@ -257,7 +257,7 @@ impl Scenario for Hs {
             broker: Box::new(broker),
             cfg,
             root: Box::new(move |ctx: Ctx| {
-                let mut options = ConnectionOptions::<Auth>::default().virtual_host("vh/1").heartbeat(hb);
+                let mut options = ConnectionOptions::<Auth>::default().virtual_host("v%2Fh/1+%41").heartbeat(hb);
                 options = match auth.as_str() {
                     "external" => options.auth(Auth::External),
                     "custom" => options.auth(Auth::Plain { username: "us\u{e9}r".into(), password: "p\u{0}w".into() }),
@@ -422,7 +422,7 @@ impl Scenario for Hs {
                     }
                 }
                 Some(AMQPFrame::Method(0, AMQPClass::Connection(pconnection::AMQPMethod::Open(op)))) => {
-                    if op.virtual_host != "vh/1" {
+                    if op.virtual_host != "v%2Fh/1+%41" {
                         v.push(("handshake:open-vhost".into(), format!("{:?}", op)));
                     }
                 }
